@@ -122,6 +122,20 @@ def main(prop=PROP):
     items += items_for('ext', 'hist_ext_mgr2', n_ext, rnd, count // 3, maxlen, years, to, 'ext/manager2')
     items += items_for('bas', 'hist_bas_mgr1', n_bas, rnd, count // 2, maxlen, years, to, 'bas/manager1')
     items += items_for('bas', 'hist_bas_mgr2', n_bas, rnd, count // 3, maxlen, years, to, 'bas/manager2')
+    # inductive step on the recycled storage: arbitrary stale bytes in the transition pool / cache slots / match array
+    xn = zones.registry_names(kc, 'ext', n_ext)
+    bn = zones.registry_names(kc, 'bas', n_bas)
+    nz, ny = (None, 50) if thorough else (None, 12)
+    hav = 0
+    for scope, names, entry in (('ext', xn, 'z_ext_havoc'), ('bas', bn, 'z_bas_havoc')):
+        zsel = range(len(names)) if nz is None else sorted(rnd.sample(range(len(names)), nz))
+        for zi in zsel:
+            for y in sorted(rnd.sample(range(2000, 2050), ny)):
+                for (lo, hi) in (zones.year_ranges('bas', y) if scope == 'bas' else [(cal.epoch_seconds(y), cal.epoch_seconds(y + 1))]):
+                    items.append(dict(name='havoc/%s/%03d/%d/%d' % (scope, zi, y, lo), entry=entry, args=[zi, lo, hi, 0], timeout=to,
+                                      year_contract=(y, lo, hi), loop_limit=1200, feas_ms=20000, budget_s=300,
+                                      quick_ms=8000))
+                    hav += 1
     res = kc.run_items(items, jobs=16)
     kc.judge_kernel(res)
     hist = [it for it in items if 'history' in it]
@@ -133,7 +147,10 @@ def main(prop=PROP):
                 'argument_classes': 'UTC years %s (t symbolic inside the year; Jan-1/rest split for basic), below 1997, from 2052, '
                                     'the error sentinel' % years,
                 'objects': 'one processor shared by two TimeZone values; zone managers with 1 and 2 cache slots and two zones',
-                'zones': 'zone pairs drawn with VERIF_SEED per history', 'loop_unwinding': 500},
+                'zones': 'zone pairs drawn with VERIF_SEED per history', 'loop_unwinding': 500,
+                'stale_storage_step': '%d (zone, year range) items: every byte of the extended transition pool and match array / the '
+                                      'basic transition slots is an unconstrained solver variable; the cache-rebuilding query must '
+                                      'answer like a processor with zero-filled storage, for every instant of the year' % hav},
         outside=['histories longer than the bound', 'zone pairs not drawn', 'getOffsetDateTime inside histories (C07)'])
     cov['sample_histories'] = [it['history'] for it in hist[:5]]
     kc.finish(cov, ['class contract for LocalDate::forEpochSeconds (year / below / above) with lemma obligations discharged on '
